@@ -10,6 +10,7 @@ Line-protocol driver for the C09 model (name → id assignment), see harness/int
   mprepare | mflush | mflushcrash <k> | iprepare <s> | iflush <s> | iflushcrash <s> <k> | reopen | crash
   krace <nsBucket> <ns> <name>                (two callers, A stopped before createValue)
   srace tagkey|field <metricId> <nameA> <nameB>  (two callers, A stopped before the store lock)
+  lflush <nsBucket> <ns> <name>               (GenMetricID of existing names ‖ a whole metadata flush)
   swindow field <metricId> <f>                (metadata flush; GenFieldID runs between the schema commit and MarkPersisted)
 
 The code variant (`Cfg`) and the default limits are the ones derived from the regenerated facts.
@@ -159,6 +160,10 @@ def step (nd : Node) (ws : List String) : Node × String :=
     | some m, some a, some b =>
       let r := fieldRace cfg.schema nd.lim nd.schema m a b
       ({ nd with schema := r.1 }, s!"A={showOut r.2.1} B={showOut r.2.2}")
+    | _, _, _ => bad
+  | ["lflush", nb, ns, name] =>
+    match nb.toNat?, ns.toNat?, name.toNat? with
+    | some nb, some ns, some name => let r := nd.lookupFlushRace cfg nb ns name; (r.1, showOut r.2)
     | _, _, _ => bad
   | ["swindow", "field", m, f] =>
     match m.toNat?, f.toNat? with
